@@ -36,18 +36,37 @@ LINT_RE = re.compile(
 
 
 def enc(v) -> str:
-    """Python nested lists/ints/bools/str/bytes -> wire text."""
-    if isinstance(v, bool):
-        return '1' if v else '0'
-    if isinstance(v, int):
-        return str(v)
-    if isinstance(v, str):
-        return '(' + ' '.join(str(ord(c)) for c in v) + ')'
-    if isinstance(v, (bytes, bytearray)):
-        return '(' + ' '.join(str(b) for b in v) + ')'
-    if v is None:
-        return '()'
-    return '(' + ' '.join(enc(x) for x in v) + ')'
+    """Python nested lists/ints/bools/str/bytes -> wire text (iterative: documents may be
+    nested thousands deep)."""
+    out = []
+    stack = [v]
+    CLOSE = object()
+    SPACE = object()
+    while stack:
+        x = stack.pop()
+        if x is CLOSE:
+            out.append(')')
+        elif x is SPACE:
+            out.append(' ')
+        elif isinstance(x, bool):
+            out.append('1' if x else '0')
+        elif isinstance(x, int):
+            out.append(str(x))
+        elif isinstance(x, str):
+            out.append('(' + ' '.join(map(str, map(ord, x))) + ')')
+        elif isinstance(x, (bytes, bytearray)):
+            out.append('(' + ' '.join(map(str, x)) + ')')
+        elif x is None:
+            out.append('()')
+        else:
+            out.append('(')
+            stack.append(CLOSE)
+            items = list(x)
+            for i in range(len(items) - 1, -1, -1):
+                stack.append(items[i])
+                if i > 0:
+                    stack.append(SPACE)
+    return ''.join(out)
 
 
 def dec(s: str):
@@ -444,7 +463,10 @@ class Model:
                 lines.pop()
             if len(lines) != len(part):
                 raise RuntimeError('model driver returned %d lines for %d cases' % (len(lines), len(part)))
-            outs.extend(dec(l) for l in lines)
+            try:   # C-speed reader: the wire text becomes JSON
+                outs.extend(json.loads('[' + ','.join(lines).replace('(', '[').replace(')', ']').replace(' ', ',') + ']'))
+            except (ValueError, RecursionError):
+                outs.extend(dec(l) for l in lines)
         return outs
 
     def run(self, v):
